@@ -38,7 +38,7 @@ BASES = {
     "Cookie": ['a=1; b="x\\073y"; c=%20', "sid=abc", 'q="un\\"q"'],
     "Date": ["Tue, 15 Nov 1994 08:12:31 GMT", "Sunday, 06-Nov-94 08:49:37 GMT"],
     "Referer": ["https://user:pw@example.com:8080/p?q=1#f", "http://[::1]:80/", "/relative"],
-    "Host": ["example.com", "example.com:8080", "[::1]:8000"],
+    "Host": ["example.com", "example.com:8080", "[::1]:8000", "xn--bcher-kva.example.com", "xn--zzzzzz.example.com"],  # the last two: a valid and a malformed internationalised label
     "Range": ["bytes=0-3", "bytes=0-1, 4-", "bytes=-2"],
     "If-Range": ['"etag"', "Tue, 15 Nov 1994 08:12:31 GMT"],
     "If-None-Match": ['"abc", W/"def"', "*"],
@@ -582,7 +582,8 @@ def run_shard(desc, tier):
                     if v not in seen:
                         seen.add(v)
                         vals.append(v)
-            for v in vals[k::n]:
+            extra = ["xn--a.example.com", "xn--.com", "xn---", "XN--80AK6AA92E.com", "a.xn--" + "z" * 70 + ".com", "xn--\xe9.com", "." * 300, "a" * 70 + ".com", "a..b", ".a.", "xn--bcher-kva.xn--zzzzzz"] if k == 0 else []
+            for v in vals[k::n] + extra:
                 for path in ("/sub", "/sub/", "/file.txt", "/files/sub", "/a/x", ""):
                     areq = SV.AReq(path=path, headers=[("Host", v)])
                     probe_dispatch(r, apps, areq, {"kind": "hostdispatch", "host": v, "path": path}, f"Host {v!r:.50} path {path!r}")
